@@ -43,10 +43,17 @@ func VerifC08_Callback() {
 		e.k.AddNewRequestBatch(e.ctx, e.ctxID, svHeight)
 		e.bank.fund(e.consumer, svDenom, sdkmath.NewInt(100000))
 		EndBlocker(e.ctx, e.k) // the slot comes up: nothing can be issued
+		firedAt := int64(0)
 		for h := svHeight + 1; h <= svHeight+svTimeout; h++ {
 			EndBlocker(e.ctx.WithBlockHeight(h), e.k)
+			if firedAt == 0 && len(calls) > 0 {
+				firedAt = h
+			}
 		}
 		verifCover("skipped")
+		// a skipped batch occupies its slot like any other: it expires one timeout after it was due, so that the
+		// next batch of a repeated context still starts one frequency after this one
+		verifAssert(firedAt == svHeight+svTimeout, "a batch that could not be issued expires one timeout after it was due, not earlier")
 		verifAssert(len(calls) == 1, "the callback fires exactly once for a batch that could not be issued")
 		verifAssert(len(calls) == 1 && calls[0].failed && calls[0].outputs == 0, "a skipped batch is reported as failed, without outputs")
 		return
